@@ -640,6 +640,26 @@ func boundaryInts() []*big.Int {
 	return out
 }
 
+// midpointInts: m*2^(e-p+1) + 2^(e-p) + d for mantissa widths p in {24, 53}, exponents e up to 63,
+// a few mantissa patterns m (even and odd last bit) and d in {-1, +1}, both signs.
+func midpointInts() []*big.Int {
+	var out []*big.Int
+	for _, p := range []uint{24, 53} {
+		for e := p + 1; e <= 63; e++ {
+			half := pow2(e - p) // half an ulp at exponent e
+			ulp := pow2(e - p + 1)
+			for _, m := range []*big.Int{pow2(p - 1), new(big.Int).Add(pow2(p-1), big.NewInt(1)), sub1(pow2(p)), new(big.Int).Sub(pow2(p), big.NewInt(2))} {
+				base := new(big.Int).Add(new(big.Int).Mul(m, ulp), half)
+				for _, d := range []int64{-1, 1} {
+					v := new(big.Int).Add(base, big.NewInt(d))
+					out = append(out, v, neg(v))
+				}
+			}
+		}
+	}
+	return out
+}
+
 func fitsInt(c *big.Int, typ string) (uint64, bool) {
 	n := uint(typeBits(typ))
 	for _, it := range intTypes {
@@ -676,6 +696,14 @@ func boundarySources() []source {
 	cands := boundaryInts()
 	for _, typ := range append(append([]string{}, intTypes...), uintTypes...) {
 		for _, c := range cands {
+			if b, ok := fitsInt(c, typ); ok {
+				add(source{Type: typ, Bits: b})
+			}
+		}
+		// integers one off an exact float32 / float64 rounding midpoint (more significant bits than the
+		// target mantissa): converting them through an intermediate float type rounds twice and can
+		// end one ulp away from the nearest value
+		for _, c := range midpointInts() {
 			if b, ok := fitsInt(c, typ); ok {
 				add(source{Type: typ, Bits: b})
 			}
